@@ -3385,6 +3385,10 @@ handle_request(coap_context_t *context, coap_session_t *session, coap_pdu_t *pdu
       goto skip_handler;
     }
     session->block_mode = block_mode;
+    if (observe) {
+      /* pdu may have been edited (token / options) and its buffer re-allocated */
+      observe = coap_check_option(pdu, COAP_OPTION_OBSERVE, &opt_iter);
+    }
 
     if (coap_handle_request_send_block(session, pdu, response, resource,
                                        query)) {
